@@ -396,7 +396,11 @@ class Runner:
         if n != len(cl.actions):
             self.violate('action_space_size', 'action_space', f'{n}_vs_{len(cl.actions)}', 'Discrete(n) differs from the configured number of actions')
             return
-        r = sut(top.step, i)
+        gi = i
+        if k % 3 == 0:
+            gi = np.int64(i)  # what Discrete.sample() hands out
+            self.ctx.probe('numpy_action_index')
+        r = sut(top.step, gi)
         if isinstance(r, tuple) and len(r) == 4:
             later = r  # the very objects handed out (checked again after the oracle used the library)
             r = (snap(r[0]), r[1], r[2], dict(r[3], observation=snap(r[3]['observation'])) if isinstance(r[3], dict) and 'observation' in r[3] else r[3])
